@@ -218,6 +218,27 @@ def shrink_event(ev):
             e = dict(ev)
             e["items"] = ev["items"][:j] + ev["items"][j + 1 :]
             out.append(e)
+    if isinstance(ev.get("key"), str) and len(ev["key"]) > 2:
+        for c in ("61", "62", "63"):
+            e = dict(ev)
+            e["key"] = c
+            out.append(e)
+    if "keys" in ev and any(len(k) > 2 for k in ev["keys"]):
+        for c in ("61", "62"):
+            e = dict(ev)
+            e["keys"] = [c if len(k) > 2 else k for k in ev["keys"]]
+            out.append(e)
+    if "items" in ev and any(len(k) > 2 for k, _ in ev["items"]):
+        for c in ("61", "62"):
+            seen, items = set(), []
+            for k, v in ev["items"]:
+                k2 = c if len(k) > 2 else k
+                if k2 not in seen:
+                    seen.add(k2)
+                    items.append([k2, v])
+            e = dict(ev)
+            e["items"] = items
+            out.append(e)
     if ev.get("via"):
         e = dict(ev)
         e["via"] = 0
